@@ -77,7 +77,7 @@ func runC13(args []string) error {
 	r := rf.rng()
 	n := rf.count(400, 8000)
 	sum := &Summary{Engine: "c13", Seed: rf.Seed,
-		Rule: "random scenarios over the real kv.LFSM: apply batches of set/delete/unknown-op entries with stale/current/zero/future versions on 14 keys sharing prefixes and directory structure (directories that hold keys only deeper down included), interleaved with get/exists/glob/list/listdir queries and snapshot+recover into a junk-filled instance; a second replica applies the same entries under a different batching; distinct = distinct scenarios; non-trivial = at least one version mismatch and one successful overwrite"}
+		Rule: "random scenarios over the real kv.LFSM: apply batches of set/delete/unknown-op entries with stale/current/zero/future versions on 14 keys sharing prefixes and directory structure (directories that hold keys only deeper down included), interleaved with get/exists/glob/list/listdir queries and snapshot+recover into a junk-filled instance; a second replica applies the same entries under a different batching; plus the client side (real kv.RaftStore on a NodeHost: what Set/Delete return, the current pair on a mismatch) and glob patterns with escaped metacharacters against path.Match; distinct = distinct scenarios; non-trivial = at least one version mismatch and one successful overwrite"}
 	cf := &CasesFile{Requires: []string{"Model.Bytes", "Model.Obs", "Model.SMap", "Model.MetaKV", "Run.C13Run"}, CaseType: "c13case", Check: "c13_check", Show: "c13_model"}
 	segs := []string{"a", "b", "tables", "sys", "ü", "a1"}
 	var keys []string
@@ -362,6 +362,12 @@ func runC13(args []string) error {
 		}
 	}
 	sum.Evaluations = n
+	if err := runC13RaftStore(sum); err != nil {
+		return err
+	}
+	if err := runC13Globs(sum); err != nil {
+		return err
+	}
 	if len(sum.Samples) == 0 {
 		sum.Samples = append(sum.Samples, cf.Descr[0])
 	}
